@@ -2,6 +2,7 @@
    Only statements, `exact`, and Print Assumptions live here. *)
 From Coq Require Import NArith ZArith List Bool.
 Require Import Board Flood Masks LowBit Conn Move GameOver Groups1 Groups2 Groups3 Groups4 Rules RoadFacts RoadFacts2.
+Require Import Refine Slide2 Slide6 Slide8 GameOverFacts1 GameOverFacts2 GameOverFacts3 GameOverFacts4 GameOverFacts5 GameOverFacts6.
 Import ListNotations.
 
 (* bitboard.Flood never runs out of its fuel of 65 iterations and returns exactly the set of squares
@@ -29,3 +30,81 @@ Theorem C02_road_bits_iff : forall s, (3 <= s <= 8)%N -> forall B, (forall i, N.
    exists path, path <> [] /\ chain path /\ Forall (in_B s B) path /\ ends s path).
 Proof. exact road_bits_iff. Qed.
 Print Assumptions C02_road_bits_iff.
+
+(* ------------------------------------------------------------------------------------------------------------------
+   The end-of-game theorem.  `inv p` (GameOverFacts2) = size 3..8, the representation invariant of C01
+   (board_ok (size p) (bview p)), no bit of White/Black outside the size*size board squares, and reserves with
+   stones + capstones < 256 per colour (the engine tests the BYTE sum against 0; at 256 it wraps, see
+   GameOverFacts5.reserves_wrap).  `abs` is the abstraction function of C01; Rules.Outcome is the specification:
+   road owner / on a double road the player who just moved / else, if the board is full or a player is out of
+   pieces, the flat count with the tie-break setting / else undecided.
+
+   For every such position the rules assign exactly one outcome o, and GameOver returns (o is decided, winner of o),
+   WinDetails returns {over, reason road/flats, winner, the rules' two flat counts}, and ResultFromGame prints the
+   corresponding result (and panics exactly when o is Undecided).
+   ------------------------------------------------------------------------------------------------------------------ *)
+Theorem C02_game_over_correct : forall p, inv p ->
+  exists o,
+    Outcome (abs p) o /\ (forall o', Outcome (abs p) o' -> o' = o) /\
+    game_over p = Some (outcome_over o, outcome_winner o) /\
+    win_details p = Some (outcome_details (abs p) o) /\
+    result_from_game (outcome_details (abs p) o) = outcome_text o.
+Proof. exact game_over_correct. Qed.
+Print Assumptions C02_game_over_correct.
+
+(* The same, read from the engine's answer: what WinDetails reports IS the rules' outcome and the rules' flat counts. *)
+Theorem C02_win_details_sound : forall p, inv p -> forall d, win_details p = Some d ->
+  Outcome (abs p) (details_outcome d) /\
+  wd_wflats d = N.of_nat (flat_count (abs p) Rules.White) /\ wd_bflats d = N.of_nat (flat_count (abs p) Rules.Black) /\
+  game_over p = Some (wd_over d, wd_winner d) /\
+  result_from_game d = outcome_text (details_outcome d).
+Proof. exact win_details_sound. Qed.
+Print Assumptions C02_win_details_sound.
+
+(* hasRoad: both flood-group computations succeed (no fuel exhaustion) and the edge-mask test on the groups of a
+   colour's road bits (tops that are flats or capstones) is exactly Rules.Road for that colour. *)
+Theorem C02_road_test : forall p, inv p -> forall c,
+  exists gs, groups (precompute (size p)) (road_bits p c) = Some gs /\
+  (existsb (spans (precompute (size p))) gs = true <-> Road (abs p) c).
+Proof. exact road_test. Qed.
+Print Assumptions C02_road_test.
+
+(* The game is over iff a road exists, the board is full, or a player has neither stones nor capstones left. *)
+Theorem C02_game_over_iff : forall p, inv p ->
+  exists over w, game_over p = Some (over, w) /\
+    (over = true <-> Road (abs p) Rules.White \/ Road (abs p) Rules.Black \/ board_full (abs p) = true \/ out_of_pieces (abs p) = true) /\
+    (over = false -> w = GNone).
+Proof. exact game_over_iff. Qed.
+Print Assumptions C02_game_over_iff.
+
+(* A reported road win names a colour that has a road; if the other colour has one too, it is the player who just moved. *)
+Theorem C02_road_winner : forall p, inv p -> forall d, win_details p = Some d -> wd_road d = true ->
+  exists c, wd_winner d = gcol c /\ wd_over d = true /\ Road (abs p) c /\ (Road (abs p) (flip c) -> c = flip (to_move (abs p))).
+Proof. exact road_winner. Qed.
+Print Assumptions C02_road_winner.
+
+(* countFlats: the two popcounts are the numbers of squares whose top piece is a flat of that colour. *)
+Theorem C02_count_flats : forall p, inv p ->
+  count_flats p = (N.of_nat (flat_count (abs p) Rules.White), N.of_nat (flat_count (abs p) Rules.Black)).
+Proof. exact count_flats_correct. Qed.
+Print Assumptions C02_count_flats.
+
+(* The clauses of `inv` beyond C01's board_ok are inductive along the engine's moves (board_ok of the successor is
+   C01's preservation result and appears as a hypothesis). *)
+Theorem C02_inv_step : forall p m, inv p -> tall_ok p -> mT m <> 1%N ->
+  match mv p m with
+  | Ok p' => board_ok (size p') (bview p') -> inv p'
+  | _ => True
+  end.
+Proof. exact inv_step. Qed.
+Print Assumptions C02_inv_step.
+
+(* Non-vacuity: a reachable 5x5 position (13 plies from the start) with a bending white road through a capstone
+   satisfies `inv`; the rules' road is exhibited directly, and the theorem yields the rules' outcome. *)
+Theorem C02_example_inv : inv ex1.
+Proof. exact ex1_inv. Qed.
+Print Assumptions C02_example_inv.
+Theorem C02_example_outcome :
+  Outcome (abs ex1) (Win Rules.White true) /\ flat_count (abs ex1) Rules.White = 6%nat /\ flat_count (abs ex1) Rules.Black = 5%nat.
+Proof. exact ex1_outcome. Qed.
+Print Assumptions C02_example_outcome.
